@@ -123,10 +123,10 @@ def finish(prop, mod, tier, seed, res, known, t0, verbose=False, extra_cov=None)
                 if cc["status"] == "ok" and not cc.get("failed"):
                     n_cc += 1
                     js["crosschecked"] += 1
-                elif cc["status"] == "ok" and cc.get("failed") and all_unsat and not p.get("pc_model_interior"):
+                elif cc["status"] == "ok" and cc.get("failed") and not p.get("pc_model_interior"):
                     n_cc_skip += 1      # boundary (tie) witness: float rounding may flip a comparison; not counted either way
-                elif cc["status"] == "ok" and cc.get("failed") and all_unsat:
-                    add_violation(fn, params, cc["failed"][0], p.get("pc_model"), "concrete cross-check of a discharged path fails (real libraries, float64)")
+                elif cc["status"] == "ok" and cc.get("failed"):
+                    add_violation(fn, params, cc["failed"][0], p.get("pc_model"), "concrete run on a witness input of this path violates the obligation (real libraries, float64)")
                 elif cc["status"] == "exception" and not _expected(cc.get("exception"), expected_exc):
                     add_violation(fn, params, None, p.get("pc_model"), "concrete cross-check raises although the symbolic path completed", exception=cc.get("exception"))
                 elif cc["status"] == "skip":
